@@ -150,7 +150,7 @@ theorem wf_get {ps : List Key} (h : tableWF ps = true) {i j : Nat} {p q : Key} (
         intro hpre
         rw [List.isPrefixOf_iff_prefix.mpr hpre] at this
         cases this
-      | succ i => exact ih h.2 (by omega) (by simpa using hp) hq'
+      | succ i => exact ih h.2 (i := i) (j := j) (by omega) (by simpa using hp) hq'
 
 /-- of two mounts that both lie on the path to `k`, the later one is strictly deeper -/
 theorem wf_later_deeper {ps : List Key} (h : tableWF ps = true) {i j : Nat} {p q k : Key} (hij : i < j)
@@ -167,7 +167,8 @@ theorem wf_later_deeper {ps : List Key} (h : tableWF ps = true) {i j : Nat} {p q
 
 /-- entry `i` is the innermost mount on the path to `k` -/
 def Owns (tbl : List (Key × σ)) (i : Nat) (k : Key) : Prop :=
-  ∃ p st, tbl[i]? = some (p, st) ∧ p <+: k ∧ ∀ j q st', tbl[j]? = some (q, st') → q <+: k → q.length ≤ p.length
+  ∃ (p : Key) (st : σ), tbl[i]? = some (p, st) ∧ p <+: k ∧
+    ∀ (j : Nat) (q : Key) (st' : σ), tbl[j]? = some (q, st') → q <+: k → q.length ≤ p.length
 
 /-- no mount on the path to `k` -/
 def NoMount (tbl : List (Key × σ)) (k : Key) : Prop := ∀ p st, (p, st) ∈ tbl → ¬ p <+: k
@@ -237,13 +238,11 @@ theorem prefix_listdir {p k : Key} (h : p <+: k) (st : σ) :
 
 theorem prefix_contains {p k : Key} (h : p <+: k) (hne : k ≠ p) (st : σ) :
     (prefixOps P p).contains st k = P.contains st (k.drop p.length) := by
-  have : (k == p) = false := by simpa using hne
-  simp [prefixOps, translate_of_prefix h, Except.bind, this]
+  simp [prefixOps, translate_of_prefix h, Except.bind, hne]
 
 theorem prefix_isDir {p k : Key} (h : p <+: k) (hne : k ≠ p) (st : σ) :
     (prefixOps P p).isDir st k = P.isDir st (k.drop p.length) := by
-  have : (k == p) = false := by simpa using hne
-  simp [prefixOps, translate_of_prefix h, Except.bind, this]
+  simp [prefixOps, translate_of_prefix h, Except.bind, hne]
 
 theorem prefix_apply {p : Key} (op : StoreOp) (h : p <+: opKey op) (st : σ) :
     (prefixOps P p).apply st op = P.apply st (match op with
@@ -253,5 +252,688 @@ theorem prefix_apply {p : Key} (op : StoreOp) (h : p <+: opKey op) (st : σ) :
       | .removedir k r => .removedir (k.drop p.length) r
       | .makedir k => .makedir (k.drop p.length)) := by
   cases op <;> simp [StoreOps.apply, prefixOps, translate_of_prefix (by simpa [opKey] using h), Except.bind]
+
+/-! ### routing in a composite state -/
+
+abbrev M (P : StoreOps σ) := mountOps P (T (σ := σ))
+
+theorem route_part (s : MtState σ) (hwf : tableWF (s.2.map (·.1)) = true) {k : Key} {i : Nat} (h : Owns s.2 i k) :
+    Mt.route T s k = .ok (.part i) := by
+  unfold Mt.route
+  rw [(route_some_iff s.2 hwf k i).mpr h]
+
+theorem route_default (s : MtState σ) {k : Key} (h : NoMount s.2 k) :
+    Mt.route T s k = if s.1.isSome then .ok .dflt else .error .routeNotFound := by
+  unfold Mt.route
+  rw [(route_none_iff s.2 k).mpr h]
+
+theorem aboveMount_iff (tbl : List (Key × σ)) (k : Key) :
+    Mt.aboveMount tbl k = true ↔ ∃ p st, (p, st) ∈ tbl ∧ k <+: p := by
+  unfold Mt.aboveMount
+  simp only [List.any_eq_true, List.isPrefixOf_iff_prefix]
+  constructor
+  · rintro ⟨⟨p, st⟩, hm, hp⟩; exact ⟨p, st, hm, hp⟩
+  · rintro ⟨p, st, hm, hp⟩; exact ⟨(p, st), hm, hp⟩
+
+/-- `k` is the root, a mount point or a parent of a mount point -/
+def Above (tbl : List (Key × σ)) (k : Key) : Prop := k = [] ∨ ∃ p st, (p, st) ∈ tbl ∧ k <+: p
+
+theorem above_cond (tbl : List (Key × σ)) (k : Key) : (k.isEmpty || Mt.aboveMount tbl k) = true ↔ Above tbl k := by
+  unfold Above
+  rw [Bool.or_eq_true, aboveMount_iff, List.isEmpty_iff]
+
+theorem not_above_ne {tbl : List (Key × σ)} {k : Key} (h : ¬ Above tbl k) {i : Nat} {p : Key} {st : σ}
+    (hi : tbl[i]? = some (p, st)) : k ≠ p := by
+  intro e
+  exact h (Or.inr ⟨p, st, List.mem_of_getElem? hi, e ▸ List.prefix_refl _⟩)
+
+/-! ### union reads -/
+
+theorem mount_isDir_above (s : MtState σ) (k : Key) (h : Above s.2 k) : (M P).isDir s k = .ok true := by
+  show Mt.isDir P T s k = _
+  unfold Mt.isDir
+  rw [if_pos ((above_cond s.2 k).mpr h)]
+
+theorem mount_isDir_part (s : MtState σ) (hwf : tableWF (s.2.map (·.1)) = true) (k : Key) (h : ¬ Above s.2 k)
+    (i : Nat) (p : Key) (st : σ) (hi : s.2[i]? = some (p, st)) (ho : Owns s.2 i k) :
+    (M P).isDir s k = P.isDir st (k.drop p.length) := by
+  show Mt.isDir P T s k = _
+  unfold Mt.isDir
+  rw [if_neg (fun e => h ((above_cond s.2 k).mp e)), route_part s hwf ho]
+  obtain ⟨p', st', h1, h2, _⟩ := ho
+  rw [hi] at h1; cases h1
+  simp only [Mt.readAt, hi]
+  exact prefix_isDir P h2 (not_above_ne h hi) st
+
+theorem mount_isDir_default (s : MtState σ) (k : Key) (h : ¬ Above s.2 k) (hn : NoMount s.2 k) :
+    (M P).isDir s k = match s.1 with | some d => P.isDir d k | none => .ok false := by
+  show Mt.isDir P T s k = _
+  unfold Mt.isDir
+  rw [if_neg (fun e => h ((above_cond s.2 k).mp e)), route_default s hn]
+  cases hd : s.1 with
+  | none => simp
+  | some d => simp [Mt.readAt, hd]
+
+theorem mount_contains_above (s : MtState σ) (k : Key) (h : Above s.2 k) : (M P).contains s k = .ok true := by
+  show Mt.contains P T s k = _
+  unfold Mt.contains
+  have := mount_isDir_above P s k h
+  change Mt.isDir P T s k = _ at this
+  rw [this]
+
+/-- containment of a key owned by a mounted store: the directory flag or the containment of the stripped key -/
+theorem mount_contains_part (s : MtState σ) (hwf : tableWF (s.2.map (·.1)) = true) (k : Key) (h : ¬ Above s.2 k)
+    (i : Nat) (p : Key) (st : σ) (hi : s.2[i]? = some (p, st)) (ho : Owns s.2 i k) :
+    (M P).contains s k = match P.isDir st (k.drop p.length) with
+      | .error e => .error e
+      | .ok true => .ok true
+      | .ok false => P.contains st (k.drop p.length) := by
+  show Mt.contains P T s k = _
+  unfold Mt.contains
+  have := mount_isDir_part P s hwf k h i p st hi ho
+  change Mt.isDir P T s k = _ at this
+  rw [this, route_part s hwf ho]
+  obtain ⟨p', st', h1, h2, _⟩ := ho
+  rw [hi] at h1; cases h1
+  simp only [Mt.readAt, hi]
+  rw [prefix_contains P h2 (not_above_ne h hi) st]
+  rfl
+
+theorem mount_contains_default (s : MtState σ) (k : Key) (h : ¬ Above s.2 k) (hn : NoMount s.2 k) :
+    (M P).contains s k = match s.1 with
+      | none => .ok false
+      | some d => match P.isDir d k with
+        | .error e => .error e
+        | .ok true => .ok true
+        | .ok false => P.contains d k := by
+  show Mt.contains P T s k = _
+  unfold Mt.contains
+  have := mount_isDir_default P s k h hn
+  change Mt.isDir P T s k = _ at this
+  rw [this, route_default s hn]
+  cases hd : s.1 with
+  | none => simp
+  | some d =>
+    simp only [Option.isSome_some, ↓reduceIte, Mt.readAt, hd]
+    rfl
+
+theorem mount_getBytes_part (s : MtState σ) (hwf : tableWF (s.2.map (·.1)) = true) (k : Key)
+    (i : Nat) (p : Key) (st : σ) (hi : s.2[i]? = some (p, st)) (ho : Owns s.2 i k) :
+    (M P).getBytes s k = P.getBytes st (k.drop p.length) := by
+  show Mt.routedRead P T s k _ = _
+  unfold Mt.routedRead
+  rw [route_part s hwf ho]
+  obtain ⟨p', st', h1, h2, _⟩ := ho
+  rw [hi] at h1; cases h1
+  simp only [Except.bind, Mt.readAt, hi]
+  exact prefix_getBytes P h2 st
+
+theorem mount_getBytes_default (s : MtState σ) (k : Key) (hn : NoMount s.2 k) :
+    (M P).getBytes s k = match s.1 with | some d => P.getBytes d k | none => .error .routeNotFound := by
+  show Mt.routedRead P T s k _ = _
+  unfold Mt.routedRead
+  rw [route_default s hn]
+  cases hd : s.1 with
+  | none => simp [Except.bind]
+  | some d => simp [Except.bind, Mt.readAt, hd]
+
+/-- the reported key is the key asked for -/
+theorem mount_meta_key (supp : σ → Key → Bool) (s : MtState σ) (k : Key) (m : MetaObs)
+    (h : (mountOps P supp).getMeta s k = .ok m) : m.key = k := by
+  change Mt.getMeta P supp s k = _ at h
+  unfold Mt.getMeta at h
+  have hfb : ∀ m', (match Mt.isDir P supp s k with
+      | .error e => .error e
+      | .ok true => .ok (Mt.dirMeta k)
+      | .ok false => .error .keyNotFound : Except StoreErr MetaObs) = .ok m' → m'.key = k := by
+    intro m' hm
+    split at hm
+    · cases hm
+    · cases hm; rfl
+    · cases hm
+  dsimp only at h
+  cases hr : Mt.routedRead P supp s k (fun S st => S.getMeta st k) with
+  | ok m0 =>
+    rw [hr] at h
+    cases h; rfl
+  | error e =>
+    rw [hr] at h
+    cases e with
+    | routeNotFound => exact hfb m h
+    | keyNotFound => exact hfb m h
+    | keyNotSupported => cases h
+    | readOnly => cases h
+    | other => cases h
+
+/-! ### writes go to the owning part only -/
+
+/-- the operation with the mount prefix stripped from its key -/
+def stripOp (p : Key) : StoreOp → StoreOp
+  | .store k d m => .store (k.drop p.length) d m
+  | .storeMeta k m => .storeMeta (k.drop p.length) m
+  | .remove k => .remove (k.drop p.length)
+  | .removedir k r => .removedir (k.drop p.length) r
+  | .makedir k => .makedir (k.drop p.length)
+
+def isRemovedir : StoreOp → Bool
+  | .removedir _ _ => true
+  | _ => false
+
+theorem prefix_apply' {p : Key} (op : StoreOp) (h : p <+: opKey op) (st : σ) :
+    (prefixOps P p).apply st op = P.apply st (stripOp p op) := by
+  rw [prefix_apply P op h st]
+  cases op <;> rfl
+
+theorem mount_apply_routed (s : MtState σ) (op : StoreOp) (hop : isRemovedir op = false) :
+    (M P).apply s op = Mt.routedWrite P T s (opKey op) (fun S st => S.apply st op) := by
+  cases op with
+  | removedir k r => simp [isRemovedir] at hop
+  | store k d m => rfl
+  | storeMeta k m => rfl
+  | remove k => rfl
+  | makedir k => rfl
+
+theorem mount_write_part (s : MtState σ) (hwf : tableWF (s.2.map (·.1)) = true) (op : StoreOp)
+    (hop : isRemovedir op = false) (i : Nat) (p : Key) (st : σ) (hi : s.2[i]? = some (p, st))
+    (ho : Owns s.2 i (opKey op)) :
+    (M P).apply s op = (P.apply st (stripOp p op)).map (fun st' => (s.1, s.2.set i (p, st'))) := by
+  rw [mount_apply_routed P s op hop]
+  unfold Mt.routedWrite
+  rw [route_part s hwf ho]
+  obtain ⟨p', st', h1, h2, _⟩ := ho
+  rw [hi] at h1; cases h1
+  simp only [Except.bind, Mt.writeAt, hi]
+  rw [prefix_apply' P op h2 st]
+
+theorem mount_write_default (s : MtState σ) (op : StoreOp) (hop : isRemovedir op = false)
+    (hn : NoMount s.2 (opKey op)) :
+    (M P).apply s op = match s.1 with
+      | some d => (P.apply d op).map (fun d' => (some d', s.2))
+      | none => .error .routeNotFound := by
+  rw [mount_apply_routed P s op hop]
+  unfold Mt.routedWrite
+  rw [route_default s hn]
+  cases hd : s.1 with
+  | none => simp [Except.bind]
+  | some d => simp [Except.bind, Mt.writeAt, hd]
+
+/-! ### listings -/
+
+theorem mountChild_iff (k p : Key) (hp : p ≠ []) (nm : Str) :
+    Mt.mountChild k p = some nm ↔ (k ++ [nm]) <+: p := by
+  unfold Mt.mountChild
+  by_cases hk : k = []
+  · subst hk
+    cases p with
+    | nil => exact absurd rfl hp
+    | cons a rest =>
+      simp only [List.isEmpty_nil, ↓reduceIte, List.head?_cons, Option.getD_some, Option.some.injEq, List.nil_append]
+      constructor
+      · rintro rfl; exact ⟨rest, rfl⟩
+      · rintro ⟨t, ht⟩; simp at ht; exact ht.1.symm
+  · have hke : k.isEmpty = false := by simpa using hk
+    simp only [hke, Bool.false_eq_true, ↓reduceIte]
+    constructor
+    · intro h
+      split at h
+      · rename_i hc
+        simp only [Bool.and_eq_true, List.isPrefixOf_iff_prefix, bne_iff_ne, ne_eq] at hc
+        obtain ⟨⟨t, rfl⟩, hne⟩ := hc
+        cases t with
+        | nil => simp at hne
+        | cons a rest =>
+          simp at h
+          subst h
+          exact ⟨rest, by simp⟩
+      · cases h
+    · rintro ⟨t, rfl⟩
+      have h1 : k.isPrefixOf (k ++ [nm] ++ t) = true := by
+        rw [List.isPrefixOf_iff_prefix]; exact ⟨[nm] ++ t, by simp⟩
+      have h2 : (k ++ [nm] ++ t != k) = true := by
+        simp only [bne_iff_ne, ne_eq]
+        intro e
+        have := congrArg List.length e
+        simp at this
+      simp [h1, h2]
+
+theorem mem_mountChildren (tbl : List (Key × σ)) (hwf : tableWF (tbl.map (·.1)) = true) (k : Key) (nm : Str) :
+    nm ∈ tbl.filterMap (fun e => Mt.mountChild k e.1) ↔ ∃ p st, (p, st) ∈ tbl ∧ (k ++ [nm]) <+: p := by
+  simp only [List.mem_filterMap]
+  constructor
+  · rintro ⟨⟨p, st⟩, hm, h⟩
+    have hp : p ≠ [] := wf_nonempty hwf (List.mem_map.mpr ⟨(p, st), hm, rfl⟩)
+    exact ⟨p, st, hm, (mountChild_iff k p hp nm).mp h⟩
+  · rintro ⟨p, st, hm, h⟩
+    have hp : p ≠ [] := wf_nonempty hwf (List.mem_map.mpr ⟨(p, st), hm, rfl⟩)
+    exact ⟨(p, st), hm, (mountChild_iff k p hp nm).mpr h⟩
+
+theorem nodup_eraseDups' {α : Type} [BEq α] [LawfulBEq α] (l : List α) : l.eraseDups.Nodup := by
+  generalize hn : l.length = n
+  induction n using Nat.strongRecOn generalizing l with
+  | _ n ih =>
+    cases l with
+    | nil => simp
+    | cons a as =>
+      rw [List.eraseDups_cons]
+      refine List.nodup_cons.mpr ⟨?_, ?_⟩
+      · intro h
+        have := List.mem_eraseDups.mp h
+        simp at this
+      · refine ih _ ?_ _ rfl
+        subst hn
+        exact Nat.lt_succ_of_le (List.length_filter_le _ _)
+
+theorem mem_insertName (a x : Str) (l : List Str) : x ∈ Mt.insertName a l ↔ x = a ∨ x ∈ l := by
+  induction l with
+  | nil => simp [Mt.insertName]
+  | cons b l ih =>
+    unfold Mt.insertName
+    split
+    · simp
+    · simp only [List.mem_cons, ih]
+      constructor
+      · rintro (h | h | h)
+        · exact Or.inr (Or.inl h)
+        · exact Or.inl h
+        · exact Or.inr (Or.inr h)
+      · rintro (h | h | h)
+        · exact Or.inr (Or.inl h)
+        · exact Or.inl h
+        · exact Or.inr (Or.inr h)
+
+theorem nodup_insertName (a : Str) (l : List Str) (ha : a ∉ l) (hl : l.Nodup) : (Mt.insertName a l).Nodup := by
+  induction l with
+  | nil => simp [Mt.insertName]
+  | cons b l ih =>
+    unfold Mt.insertName
+    obtain ⟨hb, hl'⟩ := List.nodup_cons.mp hl
+    split
+    · exact List.nodup_cons.mpr ⟨ha, hl⟩
+    · refine List.nodup_cons.mpr ⟨?_, ih (fun h => ha (List.mem_cons_of_mem _ h)) hl'⟩
+      rw [mem_insertName]
+      rintro (e | e)
+      · exact ha (e ▸ List.mem_cons_self)
+      · exact hb e
+
+theorem sortNames_mem_nodup (l : List Str) (hl : l.Nodup) :
+    (Mt.sortNames l).Nodup ∧ ∀ nm, nm ∈ Mt.sortNames l ↔ nm ∈ l := by
+  unfold Mt.sortNames
+  induction l with
+  | nil => simp
+  | cons a l ih =>
+    obtain ⟨ha, hl'⟩ := List.nodup_cons.mp hl
+    obtain ⟨h1, h2⟩ := ih hl'
+    rw [List.foldr_cons]
+    refine ⟨nodup_insertName a _ (fun h => ha ((h2 a).mp h)) h1, ?_⟩
+    intro nm
+    rw [mem_insertName, h2, List.mem_cons]
+
+theorem sortNames_spec (l : List Str) : (Mt.sortNames l.eraseDups).Nodup ∧ ∀ nm, nm ∈ Mt.sortNames l.eraseDups ↔ nm ∈ l := by
+  obtain ⟨h1, h2⟩ := sortNames_mem_nodup l.eraseDups (nodup_eraseDups' l)
+  refine ⟨h1, ?_⟩
+  intro nm
+  rw [h2, List.mem_eraseDups]
+
+/-- the listing of `k`: the owner's listing of the stripped key united with the mount points directly below -/
+theorem mount_listdir (s : MtState σ) (hwf : tableWF (s.2.map (·.1)) = true) (k : Key) (base : List Str)
+    (hb : Mt.listBase P T s k = .ok base) :
+    ∃ l, (M P).listdir s k = .ok (some l) ∧ l.Nodup ∧
+      ∀ nm, nm ∈ l ↔ nm ∈ base ∨ ∃ p st, (p, st) ∈ s.2 ∧ (k ++ [nm]) <+: p := by
+  obtain ⟨h1, h2⟩ := sortNames_spec (base ++ s.2.filterMap (fun e => Mt.mountChild k e.1))
+  refine ⟨_, ?_, h1, ?_⟩
+  · show (Mt.listdirL P T s k).map some = _
+    unfold Mt.listdirL
+    rw [hb]
+    rfl
+  · intro nm
+    rw [h2, List.mem_append, mem_mountChildren s.2 hwf]
+
+theorem mount_listdir_part (s : MtState σ) (hwf : tableWF (s.2.map (·.1)) = true) (k : Key)
+    (i : Nat) (p : Key) (st : σ) (hi : s.2[i]? = some (p, st)) (ho : Owns s.2 i k) (o : Option (List Str))
+    (hl : P.listdir st (k.drop p.length) = .ok o) :
+    ∃ l, (M P).listdir s k = .ok (some l) ∧ l.Nodup ∧
+      ∀ nm, nm ∈ l ↔ nm ∈ o.getD [] ∨ ∃ q st', (q, st') ∈ s.2 ∧ (k ++ [nm]) <+: q := by
+  refine mount_listdir P s hwf k (o.getD []) ?_
+  unfold Mt.listBase
+  rw [route_part s hwf ho]
+  obtain ⟨p', st', h1, h2, _⟩ := ho
+  rw [hi] at h1; cases h1
+  simp only [Mt.readAt, hi]
+  rw [prefix_listdir P h2 st, hl]
+  rfl
+
+theorem mount_listdir_default (s : MtState σ) (hwf : tableWF (s.2.map (·.1)) = true) (k : Key)
+    (hn : NoMount s.2 k) (d : σ) (hd : s.1 = some d) (o : Option (List Str)) (hl : P.listdir d k = .ok o) :
+    ∃ l, (M P).listdir s k = .ok (some l) ∧ l.Nodup ∧
+      ∀ nm, nm ∈ l ↔ nm ∈ o.getD [] ∨ ∃ q st', (q, st') ∈ s.2 ∧ (k ++ [nm]) <+: q := by
+  refine mount_listdir P s hwf k (o.getD []) ?_
+  unfold Mt.listBase
+  rw [route_default s hn]
+  simp only [hd, Option.isSome_some, ↓reduceIte, Mt.readAt, hl]
+  rfl
+
+theorem mount_listdir_noroute (s : MtState σ) (hwf : tableWF (s.2.map (·.1)) = true) (k : Key)
+    (hn : NoMount s.2 k) (hd : s.1 = none) :
+    ∃ l, (M P).listdir s k = .ok (some l) ∧ l.Nodup ∧
+      ∀ nm, nm ∈ l ↔ ∃ q st', (q, st') ∈ s.2 ∧ (k ++ [nm]) <+: q := by
+  obtain ⟨l, h1, h2, h3⟩ := mount_listdir P s hwf k [] (by
+    unfold Mt.listBase
+    rw [route_default s hn]
+    simp [hd])
+  refine ⟨l, h1, h2, ?_⟩
+  intro nm
+  rw [h3]
+  simp
+
+/-! ### `keys()` -/
+
+section keys
+variable (K : σ → List Key)
+
+/-- the mounted part of `keys()` when every part lists its keys as `K st` -/
+def outK : List (Key × σ) → List Key → List Key
+  | [], _ => []
+  | (p, st) :: rest, seen =>
+    p :: ((K st).map (Pfx.inverse p)).filter
+        (fun k => !(seen.any (fun q => q.isPrefixOf k)) && (p.isPrefixOf k && k != p)) ++
+      outK rest (seen ++ [p])
+
+theorem keysMounts_eq (hK : ∀ st, P.keys st = .ok (K st)) (l : List (Key × σ)) (seen : List Key) :
+    Mt.keysMounts P l seen = .ok (outK K l seen) := by
+  induction l generalizing seen with
+  | nil => rfl
+  | cons e rest ih =>
+    obtain ⟨p, st⟩ := e
+    simp only [Mt.keysMounts, prefixOps, hK, Except.map, ih, outK]
+
+theorem mem_here (p : Key) (ks seen : List Key) (x : Key) :
+    x ∈ (ks.map (Pfx.inverse p)).filter (fun k => !(seen.any (fun q => q.isPrefixOf k)) && (p.isPrefixOf k && k != p)) ↔
+      ∃ kk, kk ∈ ks ∧ x = p ++ kk ∧ kk ≠ [] ∧ ∀ q, q ∈ seen → ¬ q <+: x := by
+  simp only [List.mem_filter, List.mem_map, Bool.and_eq_true, Bool.not_eq_true', List.any_eq_false,
+    List.isPrefixOf_iff_prefix, bne_iff_ne, ne_eq]
+  constructor
+  · rintro ⟨⟨kk, hkk, rfl⟩, hseen, _, hne⟩
+    refine ⟨kk, hkk, rfl, ?_, ?_⟩
+    · intro e; apply hne; simp [Pfx.inverse, e]
+    · intro q hq hp
+      exact hseen q hq hp
+  · rintro ⟨kk, h1, h2, h3, h4⟩
+    refine ⟨⟨kk, h1, by rw [h2]; rfl⟩, ?_, ?_, ?_⟩
+    · intro q hq; exact h4 q hq
+    · rw [h2]; exact List.prefix_append _ _
+    · intro e
+      rw [h2] at e
+      have := congrArg List.length e
+      simp at this
+      exact h3 this
+
+theorem mem_outK (l : List (Key × σ)) (seen : List Key) (x : Key) :
+    x ∈ outK K l seen ↔ ∃ A p st B, l = A ++ (p, st) :: B ∧
+      (x = p ∨ ∃ kk, kk ∈ K st ∧ x = p ++ kk ∧ kk ≠ [] ∧ ∀ q, (q ∈ seen ∨ q ∈ A.map (·.1)) → ¬ q <+: x) := by
+  induction l generalizing seen with
+  | nil => simp [outK]
+  | cons e rest ih =>
+    obtain ⟨p0, st0⟩ := e
+    rw [outK, List.mem_append, List.mem_cons, mem_here, or_assoc]
+    constructor
+    · rintro (h | h | h)
+      · exact ⟨[], p0, st0, rest, rfl, Or.inl h⟩
+      · obtain ⟨kk, h1, h2, h3, h4⟩ := h
+        refine ⟨[], p0, st0, rest, rfl, Or.inr ⟨kk, h1, h2, h3, ?_⟩⟩
+        intro q hq
+        rcases hq with hq | hq
+        · exact h4 q hq
+        · simp at hq
+      · obtain ⟨A, p, st, B, hl, hx⟩ := (ih (seen ++ [p0])).mp h
+        refine ⟨(p0, st0) :: A, p, st, B, by rw [hl]; rfl, ?_⟩
+        rcases hx with hx | ⟨kk, h1, h2, h3, h4⟩
+        · exact Or.inl hx
+        · refine Or.inr ⟨kk, h1, h2, h3, ?_⟩
+          intro q hq
+          apply h4
+          rcases hq with hq | hq
+          · exact Or.inl (List.mem_append_left _ hq)
+          · rcases List.mem_cons.mp hq with e | e
+            · exact Or.inl (List.mem_append_right _ (by simp [e]))
+            · exact Or.inr e
+    · rintro ⟨A, p, st, B, hl, hx⟩
+      cases A with
+      | nil =>
+        simp only [List.nil_append, List.cons.injEq, Prod.mk.injEq] at hl
+        obtain ⟨⟨rfl, rfl⟩, rfl⟩ := hl
+        rcases hx with hx | ⟨kk, h1, h2, h3, h4⟩
+        · exact Or.inl hx
+        · exact Or.inr (Or.inl ⟨kk, h1, h2, h3, fun q hq => h4 q (Or.inl hq)⟩)
+      | cons a A' =>
+        simp only [List.cons_append, List.cons.injEq] at hl
+        obtain ⟨rfl, rfl⟩ := hl
+        refine Or.inr (Or.inr ((ih (seen ++ [p0])).mpr ⟨A', p, st, B, rfl, ?_⟩))
+        rcases hx with hx | ⟨kk, h1, h2, h3, h4⟩
+        · exact Or.inl hx
+        · refine Or.inr ⟨kk, h1, h2, h3, ?_⟩
+          intro q hq
+          apply h4
+          rcases hq with hq | hq
+          · rcases List.mem_append.mp hq with e | e
+            · exact Or.inl e
+            · right
+              have : q = p0 := by simpa using e
+              simp [this]
+          · right; exact List.mem_cons_of_mem _ hq
+
+theorem split_at {α : Type} {l : List α} {i : Nat} {e : α} (h : l[i]? = some e) :
+    l = l.take i ++ e :: l.drop (i + 1) := by
+  induction l generalizing i with
+  | nil => simp at h
+  | cons a rest ih =>
+    cases i with
+    | zero => simp at h; subst h; simp
+    | succ i =>
+      simp only [List.getElem?_cons_succ] at h
+      simp only [List.take_succ_cons, List.drop_succ_cons, List.cons_append, List.cons.injEq, true_and]
+      exact ih h
+
+theorem owns_split (E Lt : List (Key × σ)) (p : Key) (st : σ)
+    (hwf : tableWF ((E ++ (p, st) :: Lt).map (·.1)) = true) (x : Key) :
+    Owns (E ++ (p, st) :: Lt) E.length x ↔ p <+: x ∧ ∀ q, q ∈ Lt.map (·.1) → ¬ q <+: x := by
+  rw [← route_some_iff _ hwf, routeIdx_some]
+  have hget : (E ++ (p, st) :: Lt)[E.length]? = some (p, st) := by simp
+  constructor
+  · rintro ⟨p', st', h1, h2, h3⟩
+    rw [hget] at h1; cases h1
+    refine ⟨(hit_T p st x).mp h2, ?_⟩
+    intro q hq hqx
+    obtain ⟨⟨q', st'⟩, hm, rfl⟩ := List.mem_map.mp hq
+    obtain ⟨j, hj⟩ := List.getElem?_of_mem hm
+    have := h3 (E.length + 1 + j) q' st' (by omega) (by
+      rw [List.getElem?_append_right (by omega)]
+      have : E.length + 1 + j - E.length = j + 1 := by omega
+      rw [this]; simpa using hj)
+    exact (hit_T_false q' st' x).mp this hqx
+  · rintro ⟨h1, h2⟩
+    refine ⟨p, st, hget, (hit_T p st x).mpr h1, ?_⟩
+    intro j q st' hj hq
+    rw [hit_T_false]
+    apply h2
+    rw [List.getElem?_append_right (by omega)] at hq
+    have hpos : j - E.length = (j - E.length - 1) + 1 := by omega
+    rw [hpos] at hq
+    simp only [List.getElem?_cons_succ] at hq
+    exact List.mem_map.mpr ⟨(q, st'), List.mem_of_getElem? hq, rfl⟩
+
+/-- **`keys()` of the composite** (membership): the mount points, the keys of every mounted store re-prefixed
+where that store is the innermost mount on the path, and the default store's keys with no mount on the path -/
+theorem mount_keys_mem (hK : ∀ st, P.keys st = .ok (K st)) (s : MtState σ)
+    (hwf : tableWF (s.2.map (·.1)) = true) :
+    ∃ ks, (M P).keys s = .ok ks ∧ ∀ x, x ∈ ks ↔
+      ((∃ p st, (p, st) ∈ s.2 ∧ x = p) ∨
+       (∃ i p st kk, s.2[i]? = some (p, st) ∧ kk ∈ K st ∧ kk ≠ [] ∧ x = p ++ kk ∧ Owns s.2 i x) ∨
+       (∃ d, s.1 = some d ∧ x ∈ K d ∧ NoMount s.2 x)) := by
+  have hm : ∀ x, x ∈ outK K s.2.reverse [] ↔
+      ((∃ p st, (p, st) ∈ s.2 ∧ x = p) ∨
+       (∃ i p st kk, s.2[i]? = some (p, st) ∧ kk ∈ K st ∧ kk ≠ [] ∧ x = p ++ kk ∧ Owns s.2 i x)) := by
+    intro x
+    rw [mem_outK]
+    constructor
+    · rintro ⟨A, p, st, B, hl, hx⟩
+      have htbl : s.2 = B.reverse ++ (p, st) :: A.reverse := by
+        have := congrArg List.reverse hl
+        simpa using this
+      rcases hx with hx | ⟨kk, h1, h2, h3, h4⟩
+      · left
+        exact ⟨p, st, by rw [htbl]; simp, hx⟩
+      · right
+        refine ⟨B.reverse.length, p, st, kk, by rw [htbl]; simp, h1, h3, h2, ?_⟩
+        have hwf' := hwf
+        rw [htbl] at hwf' ⊢
+        rw [owns_split _ _ p st hwf']
+        refine ⟨by rw [h2]; exact List.prefix_append _ _, ?_⟩
+        intro q hq
+        apply h4
+        right
+        simpa using hq
+    · rintro (⟨p, st, hm, hx⟩ | ⟨i, p, st, kk, hi, h1, h3, h2, ho⟩)
+      · obtain ⟨A, B, hAB⟩ := List.append_of_mem (List.mem_reverse.mpr hm)
+        exact ⟨A, p, st, B, hAB, Or.inl hx⟩
+      · have hsplit := split_at hi
+        have hwf' := hwf
+        rw [hsplit] at hwf'
+        have hlen : (s.2.take i).length = i := by
+          have hlt : i < s.2.length := by
+            rcases Nat.lt_or_ge i s.2.length with h | h
+            · exact h
+            · rw [List.getElem?_eq_none h] at hi; cases hi
+          simp; omega
+        have ho' : Owns (s.2.take i ++ (p, st) :: s.2.drop (i + 1)) (s.2.take i).length x := by
+          rw [hlen, ← hsplit]; exact ho
+        have hsp := (owns_split _ _ p st hwf' x).mp ho'
+        refine ⟨(s.2.drop (i + 1)).reverse, p, st, (s.2.take i).reverse, ?_, Or.inr ⟨kk, h1, h2, h3, ?_⟩⟩
+        · have := congrArg List.reverse hsplit
+          simpa using this
+        · intro q hq
+          rcases hq with hq | hq
+          · cases hq
+          · apply hsp.2
+            simpa using hq
+  have hnm : ∀ (d : σ) (x : Key), (x ∈ K d ∧ ∀ e, e ∈ s.2 → e.1.isPrefixOf x = false) ↔ (x ∈ K d ∧ NoMount s.2 x) := by
+    intro d x
+    unfold NoMount
+    constructor
+    · rintro ⟨h1, h2⟩
+      refine ⟨h1, ?_⟩
+      intro p st hm hp
+      have := h2 (p, st) hm
+      rw [List.isPrefixOf_iff_prefix.mpr hp] at this
+      cases this
+    · rintro ⟨h1, h2⟩
+      refine ⟨h1, ?_⟩
+      intro e he
+      cases hh : e.1.isPrefixOf x with
+      | false => rfl
+      | true => exact absurd (List.isPrefixOf_iff_prefix.mp hh) (h2 e.1 e.2 he)
+  cases hd : s.1 with
+  | none =>
+    refine ⟨outK K s.2.reverse [], ?_, ?_⟩
+    · show Mt.keys P s = _
+      unfold Mt.keys
+      rw [keysMounts_eq P K hK]
+      simp only [hd]
+    · intro x
+      rw [hm x]
+      simp
+  | some d =>
+    refine ⟨outK K s.2.reverse [] ++ (K d).filter (fun k => !(s.2.any (fun e => e.1.isPrefixOf k))), ?_, ?_⟩
+    · show Mt.keys P s = _
+      unfold Mt.keys
+      rw [keysMounts_eq P K hK]
+      simp only [hd, hK]
+    · intro x
+      rw [List.mem_append, hm x, or_assoc]
+      have : x ∈ (K d).filter (fun k => !(s.2.any (fun e => e.1.isPrefixOf k))) ↔ ∃ d', some d = some d' ∧ x ∈ K d' ∧ NoMount s.2 x := by
+        simp only [List.mem_filter, Bool.not_eq_true', List.any_eq_false, Option.some.injEq, exists_eq_left']
+        simp only [Bool.not_eq_true]
+        exact hnm d x
+      rw [this]
+
+theorem tableWF_pairwise (tbl : List (Key × σ)) (h : tableWF (tbl.map (·.1)) = true) :
+    tbl.Pairwise (fun e1 e2 => ¬ e2.1 <+: e1.1) := by
+  induction tbl with
+  | nil => exact List.Pairwise.nil
+  | cons e rest ih =>
+    simp only [List.map_cons, tableWF, Bool.and_eq_true, Bool.not_eq_true', List.all_eq_true, List.mem_map] at h
+    refine List.Pairwise.cons ?_ (ih h.2)
+    intro e2 he2 hp
+    have := h.1.2 e2.1 ⟨e2, he2, rfl⟩
+    rw [List.isPrefixOf_iff_prefix.mpr hp] at this
+    cases this
+
+theorem inverse_injective (p : Key) : Function.Injective (Pfx.inverse p) := by
+  intro a b h
+  exact List.append_cancel_left h
+
+theorem nodup_outK (l : List (Key × σ)) (hKn : ∀ e, e ∈ l → (K e.2).Nodup) (seen : List Key)
+    (hp : l.Pairwise (fun e1 e2 => ¬ e1.1 <+: e2.1)) : (outK K l seen).Nodup := by
+  induction l generalizing seen with
+  | nil => exact List.Pairwise.nil
+  | cons e rest ih =>
+    obtain ⟨p, st⟩ := e
+    obtain ⟨hhead, htail⟩ := List.pairwise_cons.mp hp
+    rw [outK]
+    refine List.nodup_append.mpr ⟨?_, ih (fun e he => hKn e (List.mem_cons_of_mem _ he)) _ htail, ?_⟩
+    · refine List.nodup_cons.mpr ⟨?_, ?_⟩
+      · intro hm
+        obtain ⟨kk, _, h2, h3, _⟩ := (mem_here p (K st) seen p).mp hm
+        have := congrArg List.length h2
+        simp at this
+        exact h3 this
+      · exact List.Pairwise.filter _ (List.Pairwise.map (Pfx.inverse p) (fun a b hab e => hab (inverse_injective p e)) (hKn (p, st) List.mem_cons_self))
+    · intro x hx y hy e
+      subst e
+      have hpx : p <+: x := by
+        rcases List.mem_cons.mp hx with e | e
+        · exact e ▸ List.prefix_refl _
+        · obtain ⟨kk, _, h2, _, _⟩ := (mem_here p (K st) seen x).mp e
+          rw [h2]; exact List.prefix_append _ _
+      obtain ⟨A, p', st', B, hl, hcase⟩ := (mem_outK K rest (seen ++ [p]) x).mp hy
+      rcases hcase with h | ⟨kk, _, _, _, h4⟩
+      · have : (p', st') ∈ rest := by rw [hl]; simp
+        exact hhead (p', st') this (h ▸ hpx)
+      · exact h4 p (Or.inl (by simp)) hpx
+
+/-- **`keys()` lists every key once** -/
+theorem mount_keys_nodup (hK : ∀ st, P.keys st = .ok (K st)) (s : MtState σ)
+    (hKn : ∀ e, e ∈ s.2 → (K e.2).Nodup) (hKd : ∀ d, s.1 = some d → (K d).Nodup)
+    (hwf : tableWF (s.2.map (·.1)) = true) (ks : List Key) (h : (M P).keys s = .ok ks) : ks.Nodup := by
+  have hpw : s.2.reverse.Pairwise (fun e1 e2 => ¬ e1.1 <+: e2.1) :=
+    List.pairwise_reverse.mpr (tableWF_pairwise s.2 hwf)
+  have hno := nodup_outK K s.2.reverse (fun e he => hKn e (List.mem_reverse.mp he)) [] hpw
+  change Mt.keys P s = _ at h
+  unfold Mt.keys at h
+  rw [keysMounts_eq P K hK] at h
+  cases hd : s.1 with
+  | none =>
+    simp only [hd] at h
+    cases h; exact hno
+  | some d =>
+    simp only [hd, hK] at h
+    cases h
+    refine List.nodup_append.mpr ⟨hno, List.Pairwise.filter _ (hKd d hd), ?_⟩
+    intro x hx y hy e
+    subst e
+    obtain ⟨A, p, st, B, hl, hcase⟩ := (mem_outK K s.2.reverse [] x).mp hx
+    have hm : (p, st) ∈ s.2 := by
+      have : (p, st) ∈ s.2.reverse := by rw [hl]; simp
+      exact List.mem_reverse.mp this
+    have hpx : p <+: x := by
+      rcases hcase with h | ⟨kk, _, h2, _, _⟩
+      · exact h ▸ List.prefix_refl _
+      · rw [h2]; exact List.prefix_append _ _
+    simp only [List.mem_filter, Bool.not_eq_true', List.any_eq_false] at hy
+    have := hy.2 (p, st) hm
+    simp only [Bool.not_eq_true] at this
+    rw [List.isPrefixOf_iff_prefix.mpr hpx] at this
+    cases this
+
+end keys
 
 end Liquer.MtL
